@@ -190,6 +190,14 @@ IterAdvance(list, actual, last, d) ==
        ELSE LET i == CHOOSE i \in cand : \A j \in cand : i <= j
             IN [kind |-> "hit", p |-> list[i]]
 
+\* the same, as a scan from a cursor: the first index > i whose posting is in `actual` and >= d
+\* (0 = none).  Lists are ascending, so "after the last returned one" is "after its index".
+RECURSIVE ScanFrom(_, _, _, _)
+ScanFrom(list, actual, i, d) ==
+    IF i > Len(list) THEN 0
+    ELSE IF list[i].doc \in actual /\ list[i].doc >= d THEN i
+    ELSE ScanFrom(list, actual, i + 1, d)
+
 ListDocs(list) == {list[i].doc : i \in DOMAIN list}
 
 \* stored fields of document n: field-list order, then input order
